@@ -510,6 +510,18 @@ def eval_cases(ctx, descs):
 _LAST = {}
 
 
+def disagreement_is_failure(case):
+  """The property says the helpers return WITHOUT ERROR; the model decides exactly when an error is legitimate
+  (a numeric feature without data or with zero total weight). An exception where the model returns keypoints is
+  therefore itself a failing input."""
+  err = (case.info or {}).get("impl_error")
+  if err and case.desc.get("kind") in ("feature", "direct", "label"):
+    return "%s raised on an input for which keypoints are defined: %s" % (
+        {"feature": "compute_feature_keypoints", "direct": "compute_keypoints", "label": "compute_label_keypoints"}[
+            case.desc["kind"]], err)
+  return None
+
+
 def extra(ctx, stats):
   """Statistics for the evidence (no verdict): how many compute_keypoints cases contain an exact rounding tie,
   and in how many the float evaluation resolved a tie differently from exact half-to-even arithmetic."""
